@@ -187,6 +187,7 @@ func checkC19(c *Ctx) {
 			ru3.Check(bad == "", "payload emptiness predicate across "+strings.Join(names, ", "), "-", "same predicate in "+fmt.Sprint(len(names))+" functions: "+short(ref, 120), "the functions disagree on when a node counts as holding a value: "+bad)
 		}
 	}
+	c.ruleFullTraversal("C19-R4", 2)
 }
 
 // nilGuardedMap: the MapUpdate through field address fa is dominated by an If on "(node).Children == nil" whose true branch stores a fresh map into the same field.
@@ -228,7 +229,6 @@ func (c *Ctx) nilGuardedMap(f *ssa.Function, fa *ssa.FieldAddr, at ssa.Instructi
 	}
 	return false
 }
-
 
 // nodeTest is one elementary test a condition applies to a field of a trie node.
 type nodeTest struct {
@@ -379,7 +379,6 @@ func (c *Ctx) nodeTests(cond ssa.Value, isNode func(types.Type) bool, depth int)
 	return out
 }
 
-
 // crossAlts is the conjunction of two disjunctions of test sets.
 func crossAlts(a, b [][]nodeTest) [][]nodeTest {
 	var out [][]nodeTest
@@ -479,4 +478,207 @@ func ctrlEdge(c *Ctx, pred, blk *ssa.BasicBlock, rebase ssa.Value, isNode func(t
 		alts = crossAlts(alts, c.nodeAlts(iff.Cond, pred.Succs[0] == blk, rebase, isNode, depth))
 	}
 	return alts
+}
+
+// ruleFullTraversal: the trie functions that enumerate a whole subtree (iterate, count, dump helpers — recursive, not
+// guided by a topic) reach the loop over the node's children on every path: emitting a node's own value never ends
+// the enumeration of what lies below it.
+func (c *Ctx) ruleFullTraversal(id string, min int) {
+	ru := c.R.Rule(id, "every function that enumerates a whole subtree of a trie (recursive over the children, not guided by a topic) reaches the loop over the node's children on every path that does not fail: a node that holds a value is not a leaf", "E1 must-pass-through on all returning paths + E10 siblings", min)
+	for _, pkg := range triePkgs {
+		children, _, ok := c.nodeFields(pkg)
+		if !ru.Anchor(ok, pkg+".Node with a children map") {
+			continue
+		}
+		isNode := func(t types.Type) bool { return isNamed(derefT(t), pkg, "Node") }
+		for _, f := range c.P.ModFuncs() {
+			if f.Parent() != nil || f.Package() == nil || f.Package().Pkg.Path() != c.P.Rel(pkg) || f.Signature.Recv() == nil || !isNode(f.Signature.Recv().Type()) || len(f.Params) == 0 {
+				continue
+			}
+			recursive, guided := false, false
+			for _, cl := range core.CallsIn(f) {
+				if cl.Static == f {
+					recursive = true
+				}
+				if cl.Obj != nil && cl.Obj.Name() == "Next" && cl.Obj.Pkg() != nil && strings.HasSuffix(cl.Obj.Pkg().Path(), "/format") {
+					guided = true
+				}
+			}
+			isChildrenRange := func(in ssa.Instruction) bool {
+				rg, ok := in.(*ssa.Range)
+				if !ok {
+					return false
+				}
+				ld, ok := rg.X.(*ssa.UnOp)
+				if !ok || ld.Op != token.MUL {
+					return false
+				}
+				fa, ok := ld.X.(*ssa.FieldAddr)
+				return ok && fieldNameOf(fa.X.Type(), fa.Field) == children && core.Strip(fa.X) == ssa.Value(f.Params[0])
+			}
+			hasRange := false
+			for _, b := range f.Blocks {
+				for _, in := range b.Instrs {
+					if isChildrenRange(in) {
+						hasRange = true
+					}
+				}
+			}
+			if !recursive || guided || !hasRange {
+				continue
+			}
+			c.R.Fn(c.fname(f))
+			key := "subtree enumeration " + c.fname(f)
+			paths, err := core.EnumPaths(f, core.PathOpts{})
+			if err != nil {
+				ru.Undecided(key, c.whereF(f), err.Error())
+				continue
+			}
+			ru.Evals(len(paths))
+			bad := ""
+			for _, p := range paths {
+				if _, isRet := p.Exit.(*ssa.Return); !isRet {
+					continue
+				}
+				if isNil, known := p.ReturnsNilError(); known && !isNil {
+					continue
+				}
+				through := false
+				for _, pi := range p.Instrs() {
+					if isChildrenRange(pi.In) {
+						through = true
+					}
+				}
+				if !through {
+					bad = "a path returns without visiting the node's children: the subtree below a node is skipped — " + fmtPath(p, c.P)
+				}
+			}
+			ru.Check(bad == "", key, c.whereF(f), "every returning path loops over the children", bad)
+		}
+	}
+}
+
+// subtreeEnumerations lists the trie functions of pkg that enumerate a whole subtree: methods of Node that are
+// recursive over the children and not guided by a topic.
+func (c *Ctx) subtreeEnumerations(pkg string) map[*ssa.Function]bool {
+	out := map[*ssa.Function]bool{}
+	children, _, ok := c.nodeFields(pkg)
+	if !ok {
+		return out
+	}
+	isNode := func(t types.Type) bool { return isNamed(derefT(t), pkg, "Node") }
+	for _, f := range c.P.ModFuncs() {
+		if f.Parent() != nil || f.Package() == nil || f.Package().Pkg.Path() != c.P.Rel(pkg) || f.Signature.Recv() == nil || !isNode(f.Signature.Recv().Type()) || len(f.Params) == 0 {
+			continue
+		}
+		recursive, guided, ranges := false, false, false
+		for _, cl := range core.CallsIn(f) {
+			if cl.Static == f {
+				recursive = true
+			}
+			if cl.Obj != nil && cl.Obj.Name() == "Next" && cl.Obj.Pkg() != nil && strings.HasSuffix(cl.Obj.Pkg().Path(), "/format") {
+				guided = true
+			}
+		}
+		for _, b := range f.Blocks {
+			for _, in := range b.Instrs {
+				if rg, ok := in.(*ssa.Range); ok {
+					if ld, ok := rg.X.(*ssa.UnOp); ok && ld.Op == token.MUL {
+						if fa, ok := ld.X.(*ssa.FieldAddr); ok && fieldNameOf(fa.X.Type(), fa.Field) == children && core.Strip(fa.X) == ssa.Value(f.Params[0]) {
+							ranges = true
+						}
+					}
+				}
+			}
+		}
+		if recursive && !guided && ranges {
+			out[f] = true
+		}
+	}
+	return out
+}
+
+// ruleRetainedWildcardParent: in the retained trie a filter ending in '#' also selects the retained message of the parent level.
+func (c *Ctx) ruleRetainedWildcardParent(id string) {
+	ru := c.R.Rule(id, "retained trie match: where the filter's next level is '#', the enumeration of retained messages is rooted at the current node itself (its own message and everything below), not at its children: a subscription to home/# replays the message retained on home", "E1 paths of the topic-guided match under token == '#' + E3 receiver provenance of the subtree enumeration", 1)
+	pkg := "topics"
+	isNode := func(t types.Type) bool { return isNamed(derefT(t), pkg, "Node") }
+	enums := c.subtreeEnumerations(pkg)
+	var match *ssa.Function
+	for _, f := range c.P.ModFuncs() {
+		if f.Parent() != nil || f.Package() == nil || f.Package().Pkg.Path() != c.P.Rel(pkg) || f.Signature.Recv() == nil || !isNode(f.Signature.Recv().Type()) {
+			continue
+		}
+		rec, guided, wild := false, false, false
+		for _, cl := range core.CallsIn(f) {
+			if cl.Static == f {
+				rec = true
+			}
+			if cl.Obj != nil && cl.Obj.Name() == "Next" && cl.Obj.Pkg() != nil && strings.HasSuffix(cl.Obj.Pkg().Path(), "/format") {
+				guided = true
+			}
+		}
+		for _, b := range f.Blocks {
+			for _, in := range b.Instrs {
+				if bo, ok := in.(*ssa.BinOp); ok && bo.Op == token.EQL {
+					if k, ok := bo.Y.(*ssa.Const); ok && k.Value != nil && k.Value.ExactString() == `"#"` {
+						wild = true
+					}
+				}
+			}
+		}
+		if rec && guided && wild {
+			match = f
+		}
+	}
+	if !ru.Anchor(match != nil, "the topic-guided recursive match of topics.Node that tests for '#'") || !ru.Anchor(len(enums) > 0, "a subtree enumeration of topics.Node") {
+		return
+	}
+	c.R.Fn(c.fname(match))
+	rootedHere := func(cl *core.Call) bool {
+		g := cl.Static
+		if g == nil || len(cl.Common.Args) == 0 || core.Strip(cl.Common.Args[0]) != ssa.Value(match.Params[0]) {
+			return false
+		}
+		if enums[g] {
+			return true
+		}
+		for _, in := range core.CallsIn(g) {
+			if in.Static != nil && enums[in.Static] && len(in.Common.Args) > 0 && len(g.Params) > 0 && core.Strip(in.Common.Args[0]) == ssa.Value(g.Params[0]) {
+				return true
+			}
+		}
+		return false
+	}
+	paths, err := core.EnumPaths(match, core.PathOpts{})
+	if err != nil {
+		ru.Undecided("'#' arm of "+c.fname(match), c.whereF(match), err.Error())
+		return
+	}
+	ru.Evals(len(paths))
+	bad, n := "", 0
+	for _, p := range paths {
+		isWild := false
+		for _, d := range decisions(p) {
+			if bo, ok := d.Cond.(*ssa.BinOp); ok && bo.Op == token.EQL && d.Val {
+				if k, ok := bo.Y.(*ssa.Const); ok && k.Value != nil && k.Value.ExactString() == `"#"` {
+					isWild = true
+				}
+			}
+		}
+		if !isWild {
+			continue
+		}
+		n++
+		ok := false
+		for _, pc := range p.Calls() {
+			if rootedHere(pc.Call) {
+				ok = true
+			}
+		}
+		if !ok {
+			bad = "under '#' the retained messages are not enumerated from the current node itself: the message retained on the parent level of the filter (home for home/#) is not replayed — " + fmtPath(p, c.P)
+		}
+	}
+	ru.Check(bad == "" && n > 0, "'#' arm of "+c.fname(match), c.whereF(match), fmt.Sprintf("%d path(s) under '#', each enumerates the subtree rooted at the current node", n), bad+map[bool]string{true: "", false: "no path decides token == '#'"}[n > 0 || bad != ""])
 }
